@@ -76,7 +76,9 @@ def occ_malformed(o: dict, asn4: bool) -> str | None:
     if not rig.wf_flags(o['code'], o['flag']):
         return 'flags'
     if not rig.wf_value(o['code'], o['val'], asn4):
-        return 'value'
+        # with Partial / unused bits set where ExaBGP does not expect them its decision is the one of a flag conflict
+        noise = o['flag'] & (0x0F if o['flag'] & 0x80 else 0x2F)
+        return 'flags' if noise else 'value'
     return None
 
 
@@ -110,7 +112,11 @@ def judge_view(view_kept: dict[int, str] | None, view_keys: set[str] | None, occ
             continue
         again = sum(1 for x in occ if x['code'] == code) > 1  # a later occurrence may legitimately stand in the result
         if view_kept is not None:
-            present = code in view_kept and (not again or view_kept[code] in (o['val'].hex(), '?'))
+            present = code in view_kept and not again
+            if code == 17 and 17 not in view_kept and 2 in view_kept:
+                # merged: the malformed AS4_PATH was used if the AS_PATH is no longer the one on the wire
+                o2 = [x for x in occ if x['code'] == 2]
+                present = bool(o2) and view_kept[2] not in (o2[0]['val'].hex(), '?')
         else:
             present = JSON_KEY.get(code) in (view_keys or set()) and code != 18 and not (code == 7 and 18 in codes) and not again
         if present:
@@ -348,6 +354,14 @@ def run(ctx: Ctx) -> None:
         fix = probe_fix(S)
         ctx.extra['fix_bits'] = {'order': 'assemble overrun nh4 seg0 flagCls', 'present_in_repo': fix}
         ctx.notes.append(f'repairs present in /repo (assemble overrun nh4 seg0 flagCls) = {fix}')
+        if ctx.driver_ok:
+            # the class table: generated row (classOf) against the hand-written RFC class, through the compiled model
+            spec = [1, 2, 3, 4, 5, 6, 7, 8, 9, 10, 14, 15, 16, 17, 18, 25, 32]
+            out = common.run_driver('drv_attr7606', [f'attr7606 rfcclass {c}' for c in spec] + [f'attr7606 tabclass {c}' for c in spec])
+            mism = {c: {'rfc': out[i], 'code': out[len(spec) + i]} for i, c in enumerate(spec) if out[i] != out[len(spec) + i]}
+            ctx.extra['class_table_mismatches'] = mism
+            if mism:
+                ctx.notes.append('class of the registered attribute differs from RFC 7606 (safe directions only, see table_classes_rfc_partial): ' + ', '.join(f'{c}: RFC {v["rfc"]}, code {v["code"]}' for c, v in mism.items()))
         cases = load_corpus() + make_cases(ctx)
         results = []
         for case in cases:
